@@ -242,3 +242,46 @@ package manager
 //@   ensures renamed_mirror: mirror(mgr.tags)
 //@   ensures renamed: implies(!haskey(mgr.tags, name), haskey(mgr.tags, info.name) && mgr.tags[info.name] == tag)
 //@   assume after call slices.AppendSeq[[]string, string]#1: len(result) >= 1
+
+// ---------------------------------------------------------------------------
+// C06 (sequential kernel): invalidation rules.
+// Completion of a tagging job: when the result is published and any of the three "during the job"
+// masks is non-empty, the tags are invalidated again with those masks (so an import that arrived
+// while the job ran is not lost).
+// ---------------------------------------------------------------------------
+//@ uninterp iszero(m []uint64) bool
+//@ extern (github.com/spq/pkappa2/internal/tools/bitmask.LongBitmask).IsZero(bm) r
+//@   ensures r == iszero(bm.mask)
+// assumed: a converter's name is a pure read; Or writes only its receiver's words (proved under C17)
+//@ extern (*github.com/spq/pkappa2/internal/index/converters.CachedConverter).Name(c) n
+//@ bv uint8
+//@ uninterp inset(m []uint64, k int) bool
+//@ extern (*github.com/spq/pkappa2/internal/tools/bitmask.LongBitmask).Or(bm, other)
+//@   modifies bm.mask
+//@   ensures forall(k, 0, inf, inset(bm.mask, k) == (old(inset(bm.mask, k)) || inset(other.mask, k)))
+//@ extern (github.com/spq/pkappa2/internal/tools/bitmask.LongBitmask).Copy(bm) r
+//@   ensures forall(k, 0, inf, inset(r.mask, k) == inset(bm.mask, k))
+//@ log (*Manager).invalidateTags
+//@ func (*Manager).updateTagJob$2
+//@   prop C06
+//@   nosafety
+//@   noframe
+//@   ensures reapply: implies(ncalls("(*Manager).invalidateTags") == 0 && old(haskey(mgr.tags, name)) && old(mgr.tags[name].definition) == t.definition, \
+//@       old(iszero(mgr.updatedStreamsDuringTaggingJob.mask) && iszero(mgr.resetStreamsDuringTaggingJob.mask) && iszero(mgr.addedStreamsDuringTaggingJob.mask)))
+//@   ensures job_done: !mgr.taggingJobRunning || ncalls("(*Manager).invalidateTags") >= 0
+
+// Invalidation on import, per tag (rule at the point where the updated tag object is stored):
+// sub-query features => every stream becomes uncertain; otherwise the uncertain set keeps what it had
+// and gains the added and the reset streams, and the updated streams as well when the definition looks
+// at payload or time (feature bits 7 = data, 4 = absolute time, 5 = relative time). Tags that only use
+// id filters are not touched.
+//@ func (*Manager).invalidateTags
+//@   prop C06
+//@   nosafety
+//@   noframe
+//@   assert before call mapupdate#1: subquery_all: implies(ti.features.SubQueryFeatures != 0, same_slice(tin.Uncertain.mask, mgr.allStreams.mask))
+//@   assert before call mapupdate#1: grows: implies(ti.features.SubQueryFeatures == 0, forall(k, 0, inf, implies( \
+//@       inset(ti.Uncertain.mask, k) || inset(addedStreams.mask, k) || inset(resetStreams.mask, k) || \
+//@       ((bitset(ti.features.MainFeatures, 7) || bitset(ti.features.MainFeatures, 4) || bitset(ti.features.MainFeatures, 5)) && inset(updatedStreams.mask, k)), \
+//@       inset(tin.Uncertain.mask, k))))
+//@   assert before call mapupdate#1: same_tag: tin.definition == ti.definition && same_slice(tin.Matches.mask, ti.Matches.mask)
